@@ -1,2 +1,67 @@
-(* C03 -- statement file *)
-From SV Require Import Msg.Encode.
+(* C03 -- encoded messages are RFC 4511 BER that an independent decoder reads back. *)
+From Coq Require Import ZArith NArith List.
+From Coq.Strings Require Import Byte.
+From SV Require Import Base.Bytes Base.Py Gen.Generated Asn1.Model Asn1.TlvProofs Msg.Types Msg.Encode
+  Msg.Rfc Msg.RfcDecode Msg.RfcConform Msg.RfcDecodeProofs.
+Import ListNotations.
+Local Open Scope N_scope.
+
+(* [Msg/Rfc.v] maps a message to the BER tree the RFC 4511 ASN.1 module prescribes (class, number and
+   primitive/constructed form of every element; TRUE = FF; DEFAULT FALSE and absent OPTIONALs omitted;
+   minimal integers) and serialises it with definite minimal lengths.  For every message of every
+   operation except UnbindRequest the library's octets ARE that encoding. *)
+Theorem C03_encoder_is_rfc4511 :
+  forall m, m_op m <> UnbindRequest -> enc_msg m = rfc_enc m.
+Proof. exact enc_is_rfc. Qed.
+
+(* [Msg/RfcDecode.v] is a strict decoder written from the RFC (single-octet identifiers, definite
+   lengths only, exact tags and forms, TRUE = FF only, explicit FALSE defaults rejected, minimal
+   integers only, nothing left over).  It recovers exactly the message that was encoded; controls come
+   back in their abstract form (OID, criticality, value octets). *)
+Theorem C03_strict_decoder_reads_back :
+  forall m, m_op m <> UnbindRequest -> nlen (enc_msg m) < max_len ->
+  strict_decode (enc_msg m) = Some (gen_msg m).
+Proof. exact strict_decode_enc. Qed.
+
+(* the generic layer on its own: any well-formed BER tree, of any depth, is read back from its
+   serialisation followed by arbitrary octets *)
+Theorem C03_ber_tree_round_trip :
+  forall t, wf_ber t -> forall fuel rest, (sz t <= fuel)%nat -> nlen (ser t) < max_len ->
+  parse_one fuel (ser t ++ rest) = Some (t, rest).
+Proof. exact parse_ser. Qed.
+
+(* the tag numbers the encoder takes from the source (regenerated on every run) are the RFC's *)
+Theorem C03_constants_are_rfc :
+  cls_universal = 0 /\ cls_application = 1 /\ cls_context = 2 /\
+  tn_boolean = 1 /\ tn_integer = 2 /\ tn_octet_string = 4 /\ tn_enumerated = 10 /\ tn_sequence = 16 /\ tn_set = 17 /\
+  op_bind_request = 0 /\ op_bind_response = 1 /\ op_unbind_request = 2 /\ op_search_request = 3 /\
+  op_search_result_entry = 4 /\ op_search_result_done = 5 /\ op_search_result_reference = 19 /\
+  op_extended_request = 23 /\ op_extended_response = 24 /\
+  fid_and = 0 /\ fid_or = 1 /\ fid_not = 2 /\ fid_equality = 3 /\ fid_substrings = 4 /\ fid_ge = 5 /\ fid_le = 6 /\
+  fid_present = 7 /\ fid_approx = 8 /\ fid_extensible = 9 /\ aid_simple = 0 /\ aid_sasl = 3.
+Proof. exact constants_are_rfc. Qed.
+
+(* The full statement (all operations) is false of the faithful model: UnbindRequest is
+   [APPLICATION 2] NULL, primitive 42 00; the library writes the constructed form 62 00, which the
+   strict decoder rejects.  Known finding "unbind-constructed" (nine existing tests pin 62 00). *)
+Theorem C03_unbind_refuted :
+  enc_msg (mkMsg 0 UnbindRequest []) = [x30; x05; x02; x01; x00; x62; x00] /\
+  rfc_enc (mkMsg 0 UnbindRequest []) = [x30; x05; x02; x01; x00; x42; x00].
+Proof. exact unbind_is_not_rfc. Qed.
+Theorem C03_unbind_rejected : strict_decode (enc_msg (mkMsg 1 UnbindRequest [])) = None.
+Proof. exact strict_decode_unbind_refuted. Qed.
+
+(* non-vacuity *)
+Example C03_example :
+  let m := mkMsg 7 (SearchRequest [x64] 2 3 1000 (-1)%Z true
+                      (FOr [FSub [x61] None [[x62]] (Some [x63]); FExt None (Some [x64]) [] true]) [[x2a]])
+                 [CPaged true 10 [] None] in
+  m_op m <> UnbindRequest /\ nlen (enc_msg m) < max_len /\ strict_decode (enc_msg m) = Some (gen_msg m).
+Proof. cbv zeta. split; [discriminate|]. split; vm_compute; reflexivity. Qed.
+
+Print Assumptions C03_encoder_is_rfc4511.
+Print Assumptions C03_strict_decoder_reads_back.
+Print Assumptions C03_ber_tree_round_trip.
+Print Assumptions C03_constants_are_rfc.
+Print Assumptions C03_unbind_refuted.
+Print Assumptions C03_unbind_rejected.
